@@ -111,7 +111,7 @@ def run_cbref(a):
     def refuse(index, subindex, od, data, **kw):
         if (index, subindex) == (idx, sub):
             raise SdoAbortedError(code)
-    rig.node._write_callbacks.insert(0, refuse)          # asked first: nothing else has been told yet
+    rig.node.add_write_callback(refuse)          # public API only (the rig's own logging callback is not part of the output)
     x = c02.ref_download(rig, idx, sub, data, a[5] == "1", [7, 7, 7])
     st = rig.store_view()
     y = c02.ref_upload(rig, idx, sub)
